@@ -36,7 +36,7 @@ Proof.
   apply klt_asym. exact E.
 Qed.
 
-Lemma reg_apply_entry k r o :
+Lemma reg_apply_entry k r o : is_snap o = false ->
   reg_apply k r o = match entry_on k o with
                     | None => r
                     | Some e => match r with
@@ -45,7 +45,7 @@ Lemma reg_apply_entry k r o :
                                 end
                     end.
 Proof.
-  destruct o; cbn; try reflexivity; destruct (str_eqb k k0); try reflexivity; destruct r; reflexivity.
+  intros Hs. destruct o; cbn; try reflexivity; try discriminate Hs; destruct (str_eqb k k0); try reflexivity; destruct r; reflexivity.
 Qed.
 
 (* the final entry is the greatest of the initial entry and everything written on k *)
@@ -71,7 +71,8 @@ Proof.
     assert (Heb : forall e, entry_on k o = Some e -> ts_bounded (m_t e)).
     { intros e He. destruct o; cbn in He; try discriminate; destruct (str_eqb k k0); try discriminate;
         injection He as <-; exact Hob. }
-    rewrite reg_apply_entry in IH. rewrite reg_apply_entry.
+    pose proof (reg_ready_not_snap _ _ _ Hrdy) as Hns.
+    rewrite (reg_apply_entry _ _ _ Hns) in IH. rewrite (reg_apply_entry _ _ _ Hns).
     destruct (entry_on k o) as [eo|] eqn:Eo.
     + specialize (Heb eo eq_refl).
       destruct r0 as [old|].
